@@ -1,6 +1,6 @@
 """C07 - the DP kernels return the optimum whenever it is certifiably unique (decision-split exploration)."""
 import json
-import os
+import os, dataclasses
 import time
 import concurrent.futures as cf
 
@@ -116,5 +116,30 @@ def run_split(prop, tier, seed, only, cfgs, meta, what):
     return 1 if violations else 0
 
 
+def combine(prop, tier, seed, only, rc, insts, meta):
+    """run ordinary instances after a split exploration and merge the two evidence records"""
+    ev_path = os.path.join(core.EVIDENCE, prop + ".json") if not only else os.path.join(core.BUILD, prop + ".partial-evidence.json")
+    ev1 = json.load(open(ev_path))
+    os.rename(ev_path, ev_path + ".o1")
+    build_o1 = os.path.join(core.BUILD, prop)
+    os.rename(build_o1, build_o1 + "_o1") if os.path.isdir(build_o1) and not os.path.isdir(build_o1 + "_o1") else None
+    rc2 = core.run_property(prop, tier, insts, meta, seed, only)
+    ev2 = json.load(open(ev_path))
+    ev2["coverage"]["split_exploration"] = ev1["coverage"]
+    for k in ("evaluations", "distinct_nontrivial", "obligations", "discharged"):
+        ev2["coverage"][k] += ev1["coverage"][k]
+    ev2["violations"] += ev1["violations"]
+    ev2["wall_s"] += ev1["wall_s"]
+    json.dump(ev2, open(ev_path, "w"), indent=1)
+    os.remove(ev_path + ".o1")
+    import shutil
+    shutil.rmtree(build_o1 + "_o1", ignore_errors=True)
+    return 1 if (rc == 1 or rc2 == 1) else (rc or rc2)
+
+
 def run(tier, seed, only):
-    return run_split("C07", tier, seed, only, configs(tier), META, "C07")
+    rc = run_split("C07", tier, seed, only, configs(tier), META, "C07")
+    # the parallel driver (>= 500 rows): same hand-over contract as the serial one whose data path the split decides
+    from vk.props import C02
+    insts = [dataclasses.replace(C02.runner_inst(kind, rows), ob="O3") for kind in (1, 2, 3) for rows in ((500,) if tier == "quick" else (500, 501, 999))]
+    return combine("C07", tier, seed, only, rc, insts, META)
